@@ -68,6 +68,16 @@ func shardsVar(n int, base Child) []Child {
 	return out
 }
 
+// plus386 adds one child that runs shard `shard` of the first child's sharding in the 32-bit build (GOARCH=386): the
+// portable code of every package instead of the amd64 assembly, 32-bit int and big.Word. Where 32-bit binaries cannot be
+// executed the driver leaves these children out.
+func plus386(out []Child, shard int) []Child {
+	ch := out[0]
+	ch.Flavour, ch.NCPU, ch.GOMAXPROCS = "386", 1, 0
+	ch.Shard = shard % ch.NShards
+	return append(out, ch)
+}
+
 func pick(tier string, q, t int) int {
 	if tier == "thorough" {
 		return t
